@@ -40,10 +40,13 @@ Section C05.
   Definition judge_C05 (s : index) (q : query) : N :=
     match q with
     | QAgree F av per =>
-        let bad := filter (fun x => negb (per_ok av x)) per in
-        let names_bad := map (fun x => fst (fst x)) bad in
+        (* the known classes concern only the by-name resolver (third component) *)
+        let bad_av := filter (fun x => match x with (n, c, _) => negb (opt_def_eqb (lookup_av n av) c) end) per in
+        let bad_rff := filter (fun x => match x with (_, c, r) => negb (opt_def_eqb r c) end) per in
+        let names_bad := map (fun x => fst (fst x)) bad_rff in
         let struct_ok := nodupb String.eqb (map d_name av)
-                         && forallb (fun d => existsb (fun x => String.eqb (fst (fst x)) (d_name d)) per) av in
+                         && forallb (fun d => existsb (fun x => String.eqb (fst (fst x)) (d_name d)) per) av
+                         && (len bad_av =? 0) in
         let mper := model_per s F (map (fun x => fst (fst x)) per) in
         let mav := available dk roots s F in
         bit (negb (corr dk roots s q)) 1
